@@ -5,7 +5,9 @@ proof : Properties/C23.v (truncate bound / leeway identity, indent only inserts,
         conversion behaviour whose exceptions are caught) + a regenerated obligation file: the
         `except` clauses of do_int / do_float read from the current filters.py (T2) must cover
         TypeError, ValueError and OverflowError, and the kind table must have no raising row.
-tie   : K-rt  extracted Model.FiltStr == the real filters through Environment.call_filter on
+tie   : T5 translator: the current source of do_truncate as a Lib/PyFilt term, Gen_filt_truncate proves
+        interpreted source term = Model.FiltStr.do_truncate for all inputs (rsplit(" ", 1)[0] is one primitive);
+        K-rt  extracted Model.FiltStr == the real filters through Environment.call_filter on
         edge-case strings and numbers (truncate, indent, center, wordcount, splitlines,
         filesizeformat unit selection, int / float outcome shapes per value kind; the CPython
         conversion table itself is validated row by row against int() / float()).
@@ -88,6 +90,48 @@ def tie_truncate(ctx, env, env2):
             ctx.reject(case, of, None)
         elif text != m:
             ctx.model_mismatch("K-rt do_truncate", case, m, text, None)
+        else:
+            ctx.validated()
+
+
+def tie_truncate_markup(ctx, aenv):
+    """truncate with a safe (Markup) input: the plain end marker is escaped after the length
+    arithmetic (model FiltHtml.truncate_markup); the raw-length bound is judged by the oracle"""
+    from markupsafe import Markup
+    lines, meta = [], []
+    for s in ("a" * 30, "foo bar baz qux quux", "x y", "&amp; &lt;b&gt; and more text"):
+        for length in (3, 5, 9, 12):
+            for kw in (False, True):
+                for end in ("...", "<<<", "&", "'\"", "", "…"):
+                    for lw in (0, 2):
+                        lines.append(f"truncatem {length} {int(kw)} p{cps(end)} {lw} {cps(s)}")
+                        meta.append((s, length, kw, end, lw))
+    out = ctx.driver("filthtml", lines)
+    for (s, length, kw, end, lw), m in zip(meta, out):
+        case = {"filter": "truncate", "markup_input": s, "length": length, "killwords": kw, "end": end, "leeway": lw}
+        ctx.count("truncate_markup")
+        try:
+            r = aenv.call_filter("truncate", Markup(s), (length, kw, end, lw))
+            text = "OK " + cps(str(r))
+        except AssertionError:
+            r, text = None, "ERR AssertionError"
+        except Exception as ex:  # noqa: BLE001
+            r, text = None, exn(ex)
+        nontriv = r is not None and str(r) != s and any(c in end for c in "<>&'\"")
+        ctx.case(key=("truncate_markup", s, length, kw, end, lw) if nontriv else None)
+        of = sig = None
+        if r is not None and len(r) > length + lw:
+            of = (f"truncate of a safe string returned {len(r)} raw characters for length {length} + leeway {lw}: "
+                  "the end marker is escaped after the length arithmetic")
+            sig = "C23:truncate-markup-end-escaped-after-length"
+        elif r is None and m.startswith("OK"):
+            of = f"raised {text[4:]} on valid arguments"
+        if of:
+            ctx.reject(case, of, sig)
+            if text != m:
+                ctx.model_mismatch("K-rt do_truncate (Markup input)", case, m, text, None)
+        elif text != m:
+            ctx.model_mismatch("K-rt do_truncate (Markup input)", case, m, text, None)
         else:
             ctx.validated()
 
@@ -211,7 +255,8 @@ def tie_lines(ctx, env):
 
 # ------------------------------------------------------------------ filesizeformat
 def tie_filesize(ctx, env):
-    vals = set(range(0, 1101, 7)) | {0, 1, 2, 999, 1000, 1001, 1023, 1024, 1025, -5}
+    vals = set(range(0, 1101, 7)) | {0, 1, 2, 999, 1000, 1001, 1023, 1024, 1025, -5, -5000, 999999, 999949, 999950,
+                                     1048575, 1048524, 10 ** 9 - 1}
     for base in (1000, 1024):
         for k in range(1, 11):
             vals |= {base ** k - 1, base ** k, base ** k + 1, 5 * base ** k // 2}
@@ -312,6 +357,18 @@ def py_outcome(fn):
         return "RO"
 
 
+def observe_filesize_nonfinite(ctx, env):
+    """filesizeformat is specified on sizes (finite, non-negative numbers); what it does outside is
+    recorded in the evidence, not judged: nan compares false with every unit and falls through to YB"""
+    obs = {}
+    for v in (float("nan"), float("inf"), -5000, 999999):
+        try:
+            obs[repr(v)] = env.call_filter("filesizeformat", v)
+        except Exception as ex:  # noqa: BLE001
+            obs[repr(v)] = "raised " + type(ex).__name__
+    ctx.extra["filesizeformat_outside_domain"] = obs
+
+
 def tie_numbers(ctx, env, letters):
     outer, inner, cf = letters
     kv = kind_values()
@@ -368,6 +425,23 @@ def tie_numbers(ctx, env, letters):
                     ctx.model_mismatch("K-rt do_" + name, dict(case, filter=name), model, shape, None)
                 else:
                     ctx.validated()
+    # hypothesis probe (outside the 15 value kinds): a jinja Undefined is not a value the filters
+    # convert — Undefined.__int__ / __float__ deliberately raise UndefinedError, which the filters
+    # let through; the totality theorems exclude it (conv_exn has no UndefinedError)
+    from jinja2 import Undefined, UndefinedError, ChainableUndefined
+    for name in ("int", "float"):
+        for u in (Undefined(name="x"), ChainableUndefined(name="x")):
+            ctx.count("probe_undefined")
+            ctx.case(key=("undefined", name, type(u).__name__))
+            try:
+                r = env.call_filter(name, u)
+                ctx.extra.setdefault("undefined_probe", {})[f"{name}:{type(u).__name__}"] = f"returned {r!r}"
+                ctx.validated()
+            except UndefinedError:
+                ctx.extra.setdefault("undefined_probe", {})[f"{name}:{type(u).__name__}"] = "UndefinedError (documented behaviour of Undefined)"
+                ctx.validated()
+            except Exception as ex:  # noqa: BLE001
+                ctx.reject({"filter": name, "value": "Undefined"}, f"raised {type(ex).__name__}, neither the default nor UndefinedError", None)
     # base argument (oracle only: the documented prefix handling)
     for s, base in (("0x1A", 16), ("1A", 16), ("0b101", 2), ("777", 8), ("0o17", 8), ("zz", 36), ("12", 10), ("9", 8)):
         ctx.count("int_base")
@@ -423,20 +497,32 @@ def wrappers(ctx, env, jinja2):
                     ctx.validated()
             except Exception as ex:  # noqa: BLE001
                 ctx.reject({"filter": name, "s": s}, f"raised {type(ex).__name__}", None)
-    for v in (42.55, 42.45, -0.5, 0.5, 1.5, 2.5, 1234.5678, 0, 7, -7.25, 1e-9):
+    for v in (42.55, 42.45, -0.5, 0.5, 1.5, 2.5, 1234.5678, 0, 7, -7.25, 1e-9, float("inf"), float("-inf"), float("nan")):
         for prec in (0, 1, 2, -1):
             for method in ("common", "ceil", "floor"):
                 ctx.count("wrapper_round")
                 ctx.case()
+                # round is a thin wrapper: it must agree with its definition, exceptions included
+                # (math.ceil(inf) raises OverflowError, math.floor(nan) ValueError — Python's own behaviour)
+                try:
+                    want = round(v, prec) if method == "common" else getattr(math, method)(v * (10 ** prec)) / (10 ** prec)
+                except (OverflowError, ValueError) as ex:
+                    want = type(ex)
                 try:
                     r = env.call_filter("round", v, (prec, method))
-                    want = round(v, prec) if method == "common" else getattr(math, method)(v * (10 ** prec)) / (10 ** prec)
-                    if r != want:
+                    if isinstance(want, type):
+                        ctx.reject({"filter": "round", "value": repr(v), "precision": prec, "method": method},
+                                   f"returned {r!r} where the definition raises {want.__name__}", None)
+                        continue
+                    if r != want and not (isinstance(r, float) and math.isnan(r) and math.isnan(want)):
                         ctx.reject({"filter": "round", "value": v, "precision": prec, "method": method}, f"returned {r!r}, expected {want!r}", None)
                     else:
                         ctx.validated()
                 except Exception as ex:  # noqa: BLE001
-                    ctx.reject({"filter": "round", "value": v}, f"raised {type(ex).__name__}", None)
+                    if isinstance(want, type) and isinstance(ex, want):
+                        ctx.validated()
+                    else:
+                        ctx.reject({"filter": "round", "value": repr(v)}, f"raised {type(ex).__name__}", None)
 
 
 # ------------------------------------------------------------------ regenerated obligations
@@ -507,11 +593,15 @@ def run(ctx):
     ]
     ctx.proof("C23")
     letters = regenerated(ctx)
+    from .c22 import source_equations
+    source_equations(ctx, "truncate")
     env = jinja2.Environment()
     env2 = jinja2.Environment()
     env2.policies["truncate.leeway"] = 0
     tie_numbers(ctx, env, letters)
     tie_truncate(ctx, env, env2)
+    tie_truncate_markup(ctx, jinja2.Environment(autoescape=True))
+    observe_filesize_nonfinite(ctx, env)
     tie_lines(ctx, env)
     tie_filesize(ctx, env)
     wrappers(ctx, env, jinja2)
